@@ -412,6 +412,12 @@ VOP(ar_api)
 					std::vector<std::pair<const String *, const String *>> ss;
 					// GetFilterTargets evaluates instead when a filter variable is named like what EvaluateFilter sets
 					bool shadowed = fvars && (fvars->Contains("obj") || fvars->Contains("host") || fvars->Contains("service"));
+					Type::Ptr tt = Type::GetByName(svc ? "Service" : "Host");
+					for (int fid = 0; fvars && fid < tt->GetFieldCount() && !shadowed; fid++) {
+						Field field = tt->GetFieldInfo(fid);
+						if (field.Attributes & FANavigation)
+							shadowed = fvars->Contains(field.NavigationName ? field.NavigationName : field.Name);
+					}
 					fast = !shadowed && (svc ? ApplyRule::GetTargetServices(dict->GetExpressions().at(0).get(), ss, fvars)
 					                         : ApplyRule::GetTargetHosts(dict->GetExpressions().at(0).get(), hs, fvars));
 				}
